@@ -92,8 +92,8 @@ def make_problem(rng, cmode=None, amode=None, int_y=False, empty_rows=False, nea
         cand = rng.sample(range(nS), k)
         if amode == "mat":
             cand = sorted(cand)          # rows of the matrix refer to the validated (sorted) index array
-        elif rng.random() < 0.2:
-            cand = cand + [cand[0]]      # duplicates are removed by check_indices
+        elif rng.random() < 0.3:
+            cand = cand + [rng.choice(cand) for _ in range(rng.randint(1, 2))]      # duplicates are removed by check_indices
     elif cmode == "feat":
         k = rng.randint(1, 5)
         cand = [[rng.randint(-8, 8) / 4.0, rng.randint(-8, 8) / 4.0] for _ in range(k)]
@@ -655,7 +655,10 @@ def wrapper_case(ctx, lines, expect, prob, inner_name, alarm_s=ALARM_S, short_al
     if spy["inner"] is not None and spy["tca"] is not None:
         qs, wu, bsq = spy["inner"]
         mapping = spy["tca"][0]
-        ok = qs.ndim == 1 and len(qs) == bsq and len(set(qs.tolist())) == len(qs) and wu.ndim == 2 and wu.shape[0] == len(qs)
+        # C01 for the wrapped strategy: min(requested, #distinct candidates) distinct picks (the wrapper may ask for more
+        # than there are candidates; the wrapped strategy then clips)
+        n_inner_cand = len(set(int(i) for i in mapping)) if mapping is not None else (wu.shape[1] if wu.ndim == 2 else 0)
+        ok = qs.ndim == 1 and len(qs) == min(bsq, n_inner_cand) and len(set(qs.tolist())) == len(qs) and wu.ndim == 2 and wu.shape[0] == len(qs)
         if ok:
             for t, s in enumerate(qs):
                 if not (0 <= s < wu.shape[1]) or np.isnan(wu[t, s]) or (mapping is not None and s not in mapping):
